@@ -182,6 +182,11 @@ func (e *Engine) check(f *Frame, st *State, kind, desc, goal string, pos token.P
 	if f != nil && f.isSilent() {
 		return
 	}
+	if e.C != nil && e.C.SkipPanics != "" && (strings.HasPrefix(kind, "no-panic") || kind == "range") {
+		e.skippedPanics++
+		e.assume(st.cond, goal)
+		return
+	}
 	e.ob(f, kind, desc, st.cond, goal, pos)
 	e.assume(st.cond, goal)
 }
@@ -987,6 +992,19 @@ func (f *Frame) execUnOp(in *ssa.UnOp, st *State) {
 			term := fmt.Sprintf("(select %s %s)", e.getHeapA(st, e.sortOf(l.RootT)), l.Base)
 			f.defval(in, e.pathGet(term, l.Path))
 			return
+		}
+		if l.Kind == LElem && l.Note == "arrayptr" && len(l.Path) == 0 {
+			// *(*[N]T)(slice): the array value made of the N elements starting at the slice's offset
+			if at, ok := in.Type().Underlying().(*types.Array); ok && at.Len() <= 16 {
+				srt := e.sortOf(at.Elem())
+				h := e.getHeapA(st, srt)
+				term := e.constArray(srt, e.zero(at.Elem()))
+				for i := int64(0); i < at.Len(); i++ {
+					term = fmt.Sprintf("(store %s %d (select (select %s %s) (+ %s %d)))", term, i, h, l.Base, l.Idx, i)
+				}
+				f.defval(in, term)
+				return
+			}
 		}
 		e.guardCheck(f, st, l, false, in.Pos())
 		v := f.defval(in, e.load(st, l))
